@@ -112,7 +112,17 @@ pub fn gen_c01(rng: &mut Rng, caseid: u64, unix: bool, bound_ms: u64) -> (ConvCa
         });
         p.push_valid(&a, &[], Vec::new(), LenExp::Any, plan, "pipelined");
     }
-    let sched = gen_sched(rng, n, true);
+    let mut sched = gen_sched(rng, n, true);
+    // rarely: one early request is answered only after more than five seconds while the later
+    // ones are answered at once (their writers wait for their turn all that time)
+    let long_hold = rng.chance(1, 250);
+    let mut bound_ms = bound_ms;
+    if long_hold {
+        let who = rng.below(n - 1);
+        p.plans[who].pre_delay_us = 5_200_000 + rng.range(0, 600_000) as u64;
+        sched = Sched::Immediate;
+        bound_ms = 9000;
+    }
     let mut case = p.finish(rng, "pipeline", unix, &[], false, bound_ms);
     case.script = segmented_script(rng, &case, false);
     let sl = match &sched {
@@ -121,7 +131,7 @@ pub fn gen_c01(rng: &mut Rng, caseid: u64, unix: bool, bound_ms: u64) -> (ConvCa
         Sched::Gate { perm, .. } => format!("gate{:?}", perm),
     };
     case.sched = sched;
-    let sig = format!("n{}|{:?}|{}", n, kinds, sl);
+    let sig = format!("n{}|{:?}|{}|hold{}", n, kinds, sl, long_hold);
     (case, Some(sig))
 }
 
@@ -177,8 +187,12 @@ pub fn gen_c06(rng: &mut Rng, caseid: u64, unix: bool, bound_ms: u64) -> (ConvCa
         } else if last {
             a.add("Connection", " close");
         }
+        let broken_here = last && !upgrade_here && rng.chance(1, 12);
         let finish = if upgrade_here {
             Finish::Upgrade { read: false, write: 0 }
+        } else if broken_here {
+            let body_len = *rng.pick(&[100usize, 3000, 20000]);
+            Finish::RespondBrokenBody { declared: rng.chance(1, 2), body_len, fail_after: rng.below(body_len), panic: rng.chance(1, 2) }
         } else {
             match rng.below(10) {
                 0..=3 => Finish::Respond {
@@ -286,7 +300,38 @@ fn run_one(ctx: &Ctx, env: &Env, c06: bool, case_seed: u64, mode: &str) {
     if c06 && case.plans.iter().enumerate().any(|(i, pl)| i > 0 && matches!(pl.finish, Finish::Drop | Finish::Panic)) {
         rep.inc("trials_with_non_first_request_dropped");
     }
-    match judge(&case, &obs, &j) {
+    if case.bound_ms >= 9000 {
+        rep.inc("trials_with_an_answer_withheld_for_over_5s");
+    }
+    let broken_last = matches!(case.plans.last().map(|p| &p.finish), Some(Finish::RespondBrokenBody { .. }));
+    let verdict = if broken_last {
+        // The last response is cut short by the application's own failing body reader, so the
+        // stream cannot be parsed to its end. What the property asks is decidable on the raw bytes:
+        // exactly one status line per request, none added for the request whose body broke.
+        let n_status = obs.raw.windows(9).filter(|w| *w == b"HTTP/1.1 ").count();
+        let want = case.exp_responses.len();
+        if obs.timed_out.is_some() && !obs.healthy {
+            Verdict::Inconclusive("timeout, not healthy".into())
+        } else if n_status != want {
+            Verdict::Violated(vec![Finding {
+                aspect: if n_status > want {
+                    "extra-status-line-after-broken-body".into()
+                } else if obs.timed_out.is_some() {
+                    "response-missing-stall".into()
+                } else {
+                    "status-line-missing".into()
+                },
+                what: format!("{} status lines on the wire for {} requests (the last response's body reader failed in the application)", n_status, want),
+            }])
+        } else if obs.end == crate::net::End::Open {
+            Verdict::Violated(vec![Finding { aspect: "no-eof-stall".into(), what: "connection not closed after the broken response to a Connection: close request".into() }])
+        } else {
+            Verdict::Held
+        }
+    } else {
+        judge(&case, &obs, &j)
+    };
+    match verdict {
         Verdict::Inconclusive(why) => rep.inconclusive(&why),
         Verdict::Held => {
             let nontrivial = if c06 { true } else { reordered || threads.len() > 1 };
